@@ -107,6 +107,15 @@ func c18spec(u alias.Unit, master core.SignedData, v2 bool) alias.Spec {
 				w.Result(n, v)
 			}
 		}
+		set2 := core.SignedDataSet{c18pk: alias.DeepCopy(master)} // the same aggregate arrives once more
+		w.Input("re-stored-input", set2)
+		w.Outcome("Store(again)", db.Store(ctx, duty, set2))
+		w.MutateInputs()
+		if v, err := db.Await(ctx, duty, c18pk, sub); err == nil {
+			w.Result("reader3", v)
+		} else {
+			w.Outcome("Await(after re-store)", err)
+		}
 		w.Held("db.data", data())
 	}}
 }
